@@ -67,6 +67,10 @@ func (h *huffmanOnly) encodeBlock(final bool, flush bool) error {
 		_, err := h.w.Write(h.buf.output[:h.buf.idx])
 		return err
 	}
+	if h.offset == 0 {
+		// nothing pending: no block to emit
+		return nil
+	}
 
 	bytesFreq(&h.hist, h.buffer[:h.offset])
 	h.hist.reduceCounts()
